@@ -247,6 +247,180 @@ proof!(6, fn c13_attach_races_detach() {
     canaries();
 });
 
+// ------------------------------------------------------------------------------------------
+// C13, quick tier: the same statements cut into pieces with at most two or three attach
+// operations each and the case chosen by a const generic instead of a symbolic flag (every
+// attach builds the complete management segment: ~10 M variables per attach).
+// ------------------------------------------------------------------------------------------
+
+fn drop_order<const SENDER_FIRST: bool>() {
+    let sender = builder(BASE).create_sender().unwrap();
+    assert!(!sender.is_connected());
+    let receiver = builder(BASE).create_receiver().unwrap();
+    assert!(sender.is_connected() && receiver.is_connected());
+    assert!(destroyed() == 0 && owned() == 0 && exists());
+    if SENDER_FIRST {
+        drop(sender);
+        assert!(destroyed() == 0 && owned() == 0 && exists(), "c13: resource destroyed while the receiver is attached");
+        assert!(!receiver.is_connected());
+        drop(receiver);
+    } else {
+        drop(receiver);
+        assert!(destroyed() == 0 && owned() == 0 && exists(), "c13: resource destroyed while the sender is attached");
+        assert!(!sender.is_connected());
+        drop(sender);
+    }
+    assert!(destroyed() == 1 && !exists(), "c13: resource not destroyed exactly once by the last detach");
+    assert!(owned() == 1, "c13: ownership not acquired exactly once");
+    canaries();
+}
+proof!(6, fn c13_q_drop_sender_first() { drop_order::<true>(); });
+proof!(6, fn c13_q_drop_receiver_first() { drop_order::<false>(); });
+
+fn second_attach<const SECOND_SENDER: bool>() {
+    let sender = builder(BASE).create_sender().unwrap();
+    let receiver = builder(BASE).create_receiver().unwrap();
+    if SECOND_SENDER {
+        assert!(builder(BASE).create_sender().err() == Some(ZeroCopyCreationError::AnotherInstanceIsAlreadyConnected),
+            "c13: a second sender attached");
+    } else {
+        assert!(builder(BASE).create_receiver().err() == Some(ZeroCopyCreationError::AnotherInstanceIsAlreadyConnected),
+            "c13: a second receiver attached");
+    }
+    assert!(sender.is_connected() && receiver.is_connected(), "c13: refused attach disturbed the attached sides");
+    assert!(destroyed() == 0 && owned() == 0 && exists(), "c13: refused attach destroyed the resource");
+    core::mem::forget(sender);
+    core::mem::forget(receiver);
+    canaries();
+}
+proof!(6, fn c13_q_second_sender_refused() { second_attach::<true>(); });
+proof!(6, fn c13_q_second_receiver_refused() { second_attach::<false>(); });
+
+fn single_role<const RECEIVER: bool>() {
+    if RECEIVER {
+        let r = builder(BASE).create_receiver().unwrap();
+        assert!(!r.is_connected());
+        drop(r);
+    } else {
+        let s = builder(BASE).create_sender().unwrap();
+        drop(s);
+    }
+    assert!(destroyed() == 1 && owned() == 1 && !exists(), "c13: lone role did not destroy the resource on detach");
+    let s = builder(BASE).create_sender();
+    assert!(s.is_ok() && exists(), "c13: name not usable again after teardown");
+    core::mem::forget(s);
+    canaries();
+}
+proof!(6, fn c13_q_single_sender_and_recreate() { single_role::<false>(); });
+proof!(6, fn c13_q_single_receiver_and_recreate() { single_role::<true>(); });
+
+/// one mismatching parameter (WHICH concrete), same or opposite role
+fn mismatch<const WHICH: u8, const SAME_ROLE: bool>() {
+    let sender = builder(BASE).create_sender().unwrap();
+    let mut p = BASE;
+    let expected = match WHICH {
+        0 => { p.buffer = 2; ZeroCopyCreationError::IncompatibleBufferSize }
+        1 => { p.borrow = 2; ZeroCopyCreationError::IncompatibleMaxBorrowedSamplesPerChannelSetting }
+        2 => { p.overflow = false; ZeroCopyCreationError::IncompatibleOverflowSetting }
+        3 => { p.chunks = 2; ZeroCopyCreationError::IncompatibleNumberOfSamples }
+        4 => { p.segments = 2; ZeroCopyCreationError::IncompatibleNumberOfSegments }
+        _ => { p.channels = 2; ZeroCopyCreationError::IncompatibleNumberOfChannels }
+    };
+    if SAME_ROLE {
+        let r = builder(p).create_sender();
+        assert!(r.err() == Some(ZeroCopyCreationError::AnotherInstanceIsAlreadyConnected),
+            "c13: second (mismatching) attach of an attached role not refused as already connected");
+    } else {
+        let r = builder(p).create_receiver();
+        assert!(r.err() == Some(expected), "c13: mismatching attach not refused with the matching error");
+        assert!(!sender.is_connected(), "c13: refused mismatching attach left its role registered");
+    }
+    assert!(destroyed() == 0 && owned() == 0 && exists(), "c13: refused mismatching attach destroyed the resource");
+    // the attached side is undisturbed: its detach is the last one and destroys the resource once
+    drop(sender);
+    assert!(destroyed() == 1 && owned() == 1 && !exists(), "c13: refused mismatching attach disturbed the attached side (its role bit is gone or the resource leaks)");
+    canaries();
+}
+proof!(6, fn c13_q_mismatch_buffer_same_role() { mismatch::<0, true>(); });
+proof!(6, fn c13_q_mismatch_borrow_other_role() { mismatch::<1, false>(); });
+proof!(6, fn c13_q_mismatch_channels_other_role() { mismatch::<5, false>(); });
+proof!(6, fn c13_t_mismatch_buffer_other_role() { mismatch::<0, false>(); });
+proof!(6, fn c13_t_mismatch_overflow_other_role() { mismatch::<2, false>(); });
+proof!(6, fn c13_t_mismatch_chunks_other_role() { mismatch::<3, false>(); });
+proof!(6, fn c13_t_mismatch_segments_other_role() { mismatch::<4, false>(); });
+proof!(6, fn c13_t_mismatch_channels_same_role() { mismatch::<5, true>(); });
+
+fn attach_races_detach<const AT: u8, const MISMATCH: bool>() {
+    unsafe {
+        RACE_SENDER = Some(builder(BASE).create_sender().unwrap());
+        let mut p = BASE;
+        if MISMATCH {
+            p.borrow = 2;
+        }
+        KSTORAGE_HOOK = hook_drop_sender;
+        KSTORAGE_HOOK_AT = AT;
+        let r = builder(p).create_receiver();
+        KSTORAGE_HOOK_AT = 9;
+        assert!(RACE_GUARD == 1 && RACE_SENDER.is_none(), "harness: the racing detach did not run");
+        match r {
+            Ok(receiver) => {
+                assert!(AT == 2 && !MISMATCH, "c13: attach succeeded although the connection was being torn down / mismatching");
+                assert!(destroyed() == 0 && exists(), "c13: attached to a destroyed resource");
+                assert!(!receiver.is_connected());
+                drop(receiver);
+            }
+            Err(e) => {
+                if AT == 1 {
+                    assert!(e == ZeroCopyCreationError::IsBeingCleanedUp, "c13: attach racing the teardown not refused as being cleaned up");
+                } else {
+                    assert!(MISMATCH && e == ZeroCopyCreationError::IncompatibleMaxBorrowedSamplesPerChannelSetting);
+                }
+            }
+        }
+        assert!(destroyed() == 1 && owned() == 1 && !exists(), "c13: resource not destroyed exactly once by the last one out (leak or double destruction)");
+    }
+    canaries();
+}
+proof!(6, fn c13_q_race_detach_before_registration() { attach_races_detach::<1, false>(); });
+proof!(6, fn c13_q_race_detach_after_registration_mismatch() { attach_races_detach::<2, true>(); });
+proof!(6, fn c13_q_race_detach_after_registration_match() { attach_races_detach::<2, false>(); });
+proof!(6, fn c13_t_race_detach_before_registration_mismatch() { attach_races_detach::<1, true>(); });
+
+fn forced_removal<const DEAD_IS_RECEIVER: bool, const SURVIVOR_FIRST: bool>() {
+    let sender = builder(BASE).create_sender().unwrap();
+    let receiver = builder(BASE).create_receiver().unwrap();
+    let cfg = <Conn as NamedConceptMgmt>::Configuration::default();
+    if DEAD_IS_RECEIVER {
+        core::mem::forget(receiver); // the process died: no Drop runs
+        if SURVIVOR_FIRST {
+            drop(sender);
+            assert!(destroyed() == 0 && exists(), "c13: resource destroyed although the dead peer is still registered");
+            assert!(unsafe { Conn::remove_receiver(&name(), &cfg) }.is_ok());
+        } else {
+            assert!(unsafe { Conn::remove_receiver(&name(), &cfg) }.is_ok());
+            assert!(destroyed() == 0 && exists(), "c13: forced removal destroyed the resource under the survivor");
+            assert!(!sender.is_connected());
+            drop(sender);
+        }
+    } else {
+        core::mem::forget(sender);
+        if SURVIVOR_FIRST {
+            drop(receiver);
+            assert!(destroyed() == 0 && exists());
+            assert!(unsafe { Conn::remove_sender(&name(), &cfg) }.is_ok());
+        } else {
+            assert!(unsafe { Conn::remove_sender(&name(), &cfg) }.is_ok());
+            assert!(destroyed() == 0 && exists());
+            drop(receiver);
+        }
+    }
+    assert!(destroyed() == 1 && !exists(), "c13: resource not destroyed exactly once after forced removal");
+    assert!(owned() == 1);
+    canaries();
+}
+proof!(6, fn c13_q_forced_removal_receiver_then_sender_leaves() { forced_removal::<true, false>(); });
+proof!(6, fn c13_q_forced_removal_sender_after_receiver_left() { forced_removal::<false, true>(); });
+
 // ==========================================================================================
 // connection-level data path: C03 / C01 / C02 / C08
 // ==========================================================================================
